@@ -276,13 +276,19 @@ Section World.
     match kind W o with Static => read_static o s | Dynamic => read_dynamic o s end.
   Definition read_all (os : list Z) (s : st) : st :=
     fold_left (fun s o => add_obstacle o s) os (fold_left (fun s o => read_one o s) os s).
+  (* a file opened with lanelet_assignment=False: the obstacles are new objects without any assignment
+     attribute ([fresh], demanded by [ok]) and are added to the scenario one after the other *)
+  Definition fresh (s : st) (o : Z) : bool :=
+    match ic s o, ish s o, ca s o, sa s o with None, None, None, None => true | _, _, _, _ => false end.
+  Definition load_all (os : list Z) (s : st) : st := fold_left (fun s o => add_obstacle o s) os s.
 
   (* ---- histories *)
   Inductive op :=
   | OAdd (o : Z)
   | ORemove (o : Z)
   | OAssign (time_steps : option (list Z)) (ids : option (list Z)) (centre_only : bool)
-  | ORead (os : list Z).
+  | ORead (os : list Z)
+  | OLoad (os : list Z).
 
   Definition step (s : st) (o : op) : st * outcome :=
     match o with
@@ -290,6 +296,7 @@ Section World.
     | ORemove o => remove_obstacle o s
     | OAssign ts ids c => assign ts ids c s
     | ORead os => (read_all os s, Done)
+    | OLoad os => (load_all os s, Done)
     end.
   Definition run (ops : list op) (s : st) : st := fold_left (fun s o => fst (step s o)) ops s.
 
@@ -307,6 +314,7 @@ Section World.
     | OAssign _ ids _ => match ids with Some l => forallb (present s) l | None => true end
     | ORead os => nodupZ os && forallb (fun o => negb (present s o)) os
                   && forallb (fun o => match kind W o, tf W o with Dynamic, None => false | _, _ => true end) os
+    | OLoad os => nodupZ os && forallb (fun o => negb (present s o) && fresh s o) os
     end.
   Fixpoint all_ok (ops : list op) (s : st) : bool :=
     match ops with [] => true | o :: r => ok s o && all_ok r (fst (step s o)) end.
